@@ -73,12 +73,14 @@ def run(ctx):
     scope_pairing(ctx, "C12.b.scopes")
     c_exhaustive(ctx)
     d_consumers(ctx)
+    d_label_tables(ctx)
     try:
         from . import C14
     except ImportError:
         C14 = None
     if C14 is not None:
         C14.offsets(ctx, "C12.e")
+        C14.post_passes(ctx, "C12.e.post-pass")
         C14.key_agreement(ctx, "C12.f")
 
 
@@ -318,10 +320,169 @@ def c_exhaustive(ctx):
     for n in ast.walk(ee):
         if isinstance(n, ast.If) and isinstance(n.test, ast.Call) and src(n.test.func) == "isinstance" and src(n.test.args[1]) in ("Continue", "Break"):
             idx = 0 if src(n.test.args[1]) == "Continue" else 1
-            if any(isinstance(a, ast.Assign) and src(a.targets[0]) == "element.label" and src(a.value) == "continue_break_labels[%d]" % idx for s in n.body for a in ast.walk(s)):
-                fills += 1
+            want = "continue_break_labels[%d]" % idx
+            cls = src(n.test.args[1])
+            for a in [a for s in n.body for a in ast.walk(s)]:
+                if isinstance(a, ast.Assign) and isinstance(a.targets[0], ast.Attribute) and a.targets[0].attr == "label" and src(a.value) == want:
+                    fills += 1
+                    break
+                if isinstance(a, ast.Call) and src(a.func) == cls and any(k.arg == "label" and src(k.value) == want for k in a.keywords):
+                    fills += 1
+                    break
     ctx.check("C12.c.break-continue", EXP, "expand_elements", "labels filled", fills == 2,
               "unlabeled Continue gets the begin label (index 0) and Break the end label (index 1) of the enclosing loop", line=ee.lineno)
+    source_immutable(ctx, mod)
+
+
+def source_immutable(ctx, mod):
+    """Labels are fresh per compilation (new uuid on every expansion), while the parsed elements are shared with RailsConfig.flows and
+    compiled again by every runtime built from the configuration.  A label written INTO a parsed element survives into the next
+    compilation, where no Label of that name is emitted: the jump target does not exist (F23)."""
+    n_fn = 0
+    for fn in functions(mod):
+        n_fn += 1
+        local_new = set()
+        for n in walk_no_nested(fn):
+            if isinstance(n, ast.Assign) and isinstance(n.targets[0], ast.Name) and isinstance(n.value, ast.Call) and \
+                    (re.match(r"[A-Z]\w*$", src(n.value.func)) or src(n.value.func) in ("copy.deepcopy", "deepcopy", "copy.copy")):
+                local_new.add(n.targets[0].id)
+        for n in walk_no_nested(fn):
+            tg = n.targets if isinstance(n, ast.Assign) else [n.target] if isinstance(n, (ast.AugAssign, ast.AnnAssign)) else []
+            for t in tg:
+                if isinstance(t, ast.Attribute) and t.attr in ("label", "labels", "catch_pattern_failure_label", "fork_uid") or \
+                        (isinstance(t, ast.Subscript) and isinstance(t.slice, ast.Constant) and t.slice.value in ("label", "labels")):
+                    base = t.value
+                    while isinstance(base, (ast.Attribute, ast.Subscript)):
+                        base = base.value
+                    ok = isinstance(base, ast.Name) and base.id in local_new
+                    ctx.check("C12.a.source-immutable", EXP, fn.name, first_line(n), ok,
+                              "the label is written into an element this function created" if ok else
+                              "a per-compilation label is written into a parsed element: the source AST is shared with RailsConfig.flows, so the next compilation "
+                              "(a second LLMRails from the same config) keeps this stale label and the jump target does not exist there", line=n.lineno)
+    ctx.check("C12.a.source-immutable", EXP, "<module>", "label stores analysed", n_fn >= 15,
+              "%d functions scanned for label stores into parsed elements" % n_fn, line=1)
+
+
+RT2 = "nemoguardrails/colang/v2_x/runtime/runtime.py"
+
+
+def d_label_tables(ctx):
+    """`element_labels` (label name -> element index) is what every jump consults.  It is filled in exactly one place, initialize_flow, from the
+    element list it has just stored; therefore every FlowConfig that becomes visible in a State's flow_configs must have passed initialize_flow."""
+    from ..pycfg import build
+    sm = ctx.tree.ast(SM)
+    rt = ctx.tree.ast(RT2)
+    # 1. the single writer
+    writers = []
+    for path, t in ((SM, sm), (RT2, rt), (EXP, ctx.tree.ast(EXP))):
+        for fn in functions(t):
+            for n in walk_no_nested(fn):
+                if isinstance(n, ast.Call) and isinstance(n.func, ast.Attribute) and n.func.attr in ("update", "setdefault", "__setitem__") and src(n.func.value).endswith("element_labels"):
+                    writers.append((path, fn, n))
+                tg = n.targets if isinstance(n, ast.Assign) else []
+                for x in tg:
+                    if (isinstance(x, ast.Subscript) and src(x.value).endswith("element_labels")) or (isinstance(x, ast.Attribute) and x.attr == "element_labels"):
+                        writers.append((path, fn, n))
+    init = find_function(sm, "initialize_flow")
+    if init is None:
+        raise AnalysisError("initialize_flow not found", anchor=SM + "::initialize_flow")
+    ctx.check("C12.d.label-table", SM, "initialize_flow", "single writer of element_labels", bool(writers) and all(fn is init for _, fn, _ in writers),
+              "element_labels is written only by initialize_flow (%d site(s))" % len(writers) if writers and all(fn is init for _, fn, _ in writers) else
+              "element_labels is written outside initialize_flow: %s" % [(p, f.name) for p, f, _ in writers if f is not init], line=init.lineno)
+    # the table is built from the list that was just stored, index = position in that list, for every Label
+    exp_store = [a for a in init.body if isinstance(a, ast.Assign) and src(a.targets[0]) == "flow_config.elements" and isinstance(a.value, ast.Call) and src(a.value.func) == "expand_elements"]
+    loops = [l for l in init.body if isinstance(l, ast.For) and re.sub(r"\s", "", src(l.iter)) == "enumerate(flow_config.elements)"]
+    ok = bool(exp_store) and bool(loops) and loops[0].lineno > exp_store[0].lineno
+    if ok:
+        l = loops[0]
+        iv, ev = (l.target.elts[0].id, l.target.elts[1].id) if isinstance(l.target, ast.Tuple) and len(l.target.elts) == 2 else (None, None)
+        body_ok = False
+        for i in l.body:
+            if isinstance(i, ast.If) and re.sub(r"\s", "", src(i.test)) == "isinstance(%s,Label)" % ev and not i.orelse:
+                for c in ast.walk(i):
+                    if isinstance(c, ast.Call) and src(c.func) == "flow_config.element_labels.update" and isinstance(c.args[0], ast.Dict) and \
+                            re.sub(r"\s", "", src(c.args[0].keys[0])) in ('%s["name"]' % ev, "%s['name']" % ev, "%s.name" % ev) and src(c.args[0].values[0]) == iv:
+                        body_ok = True
+        # no statement in the loop can skip a Label (continue/break before the store)
+        skips = [x for x in ast.walk(l) if isinstance(x, (ast.Break, ast.Continue, ast.Return))]
+        ok = body_ok and not skips
+    ctx.check("C12.d.label-table", SM, "initialize_flow", "table built from the stored list", ok,
+              "after `flow_config.elements = expand_elements(...)`, every Label of exactly that list is entered with its index in that list", line=init.lineno)
+    # 2. every insertion into a State's flow_configs is dominated by initialize_flow(<that config>)
+    n_sites = 0
+    for path, t in ((SM, sm), (RT2, rt)):
+        for fn in functions(t):
+            sites = []
+            for n in walk_no_nested(fn):
+                if isinstance(n, ast.Call) and isinstance(n.func, ast.Attribute) and n.func.attr in ("update", "setdefault") and re.search(r"\bstate\.flow_configs$", src(n.func.value)):
+                    vals = []
+                    if n.func.attr == "update" and n.args and isinstance(n.args[0], ast.Dict):
+                        vals = [src(v) for v in n.args[0].values]
+                    elif n.func.attr == "setdefault" and len(n.args) > 1:
+                        vals = [src(n.args[1])]
+                    sites.append((n, vals))
+                if isinstance(n, ast.Assign) and isinstance(n.targets[0], ast.Subscript) and re.search(r"\bstate\.flow_configs$", src(n.targets[0].value)):
+                    sites.append((n, [src(n.value)]))
+            if not sites:
+                continue
+            cfg = build(fn)
+            for n, vals in sites:
+                n_sites += 1
+                node = cfg.node_of(n)
+                inits = [m for m in cfg.nodes if m.ast is not None and any(isinstance(c, ast.Call) and src(c.func) == "initialize_flow" and len(c.args) == 2 and src(c.args[1]) in vals
+                                                                            for c in ast.walk(m.ast) if not isinstance(m.ast, (ast.For, ast.While, ast.If, ast.Try, ast.With, ast.AsyncWith, ast.AsyncFor))
+                                                                            or c in _header_calls(m.ast))]
+                ok = bool(vals) and bool(inits) and cfg.must_pass(cfg.entry, node, inits)
+                ctx.check("C12.d.label-table", path, qualname_of(fn), first_line(n), ok,
+                          "the flow config is initialised (expanded, label table built) on every path before it becomes visible in state.flow_configs" if ok else
+                          "a FlowConfig is added to state.flow_configs without passing initialize_flow on every path: its element_labels stay empty and every Goto/ForkHead/Break in it targets a label that does not exist",
+                          line=n.lineno)
+    ctx.floor("C12.d.label-table", RT2, "run-time insertions into state.flow_configs", n_sites, 1)
+    # 3. a fresh State is initialised before use: State(...) is followed by initialize_state(<it>) and that initialises every config
+    ist = find_function(sm, "initialize_state")
+    ok = ist is not None and any(isinstance(l, ast.For) and re.sub(r"\s", "", src(l.iter)) == "state.flow_configs.values()" and
+                                 any(isinstance(c, ast.Call) and src(c.func) == "initialize_flow" and src(c.args[1]) == src(l.target) for c in ast.walk(l))
+                                 for l in ast.walk(ist))
+    ctx.check("C12.d.label-table", SM, "initialize_state", "initialises every flow config", ok, "initialize_state calls initialize_flow for every entry of state.flow_configs",
+              line=(ist.lineno if ist else 1))
+    n_new = 0
+    for path, t in ((SM, sm), (RT2, rt)):
+        for fn in functions(t):
+            for n in walk_no_nested(fn):
+                if isinstance(n, ast.Assign) and isinstance(n.value, ast.Call) and src(n.value.func) == "State" and isinstance(n.targets[0], ast.Name):
+                    n_new += 1
+                    var = n.targets[0].id
+                    blk = _blk(n)
+                    i = blk.index(n) if blk else -1
+                    nxt = blk[i + 1] if blk and i + 1 < len(blk) else None
+                    ok = nxt is not None and isinstance(nxt, ast.Expr) and isinstance(nxt.value, ast.Call) and src(nxt.value.func) == "initialize_state" and src(nxt.value.args[0]) == var
+                    ctx.check("C12.d.label-table", path, qualname_of(fn), first_line(n), ok,
+                              "the new State is passed to initialize_state before anything else uses it" if ok else
+                              "a new State is used without initialize_state: no flow config has a label table", line=n.lineno)
+    ctx.floor("C12.d.label-table", RT2, "State constructions", n_new, 1)
+
+
+def _header_calls(node):
+    hdr = []
+    for f in ("test", "iter", "items"):
+        v = getattr(node, f, None)
+        for x in (v if isinstance(v, list) else [v] if v is not None else []):
+            hdr += [c for c in ast.walk(x) if isinstance(c, ast.Call)]
+    return hdr
+
+
+def _blk(stmt):
+    p = getattr(stmt, "_parent", None)
+    for f in ("body", "orelse", "finalbody"):
+        b = getattr(p, f, None)
+        if isinstance(b, list) and stmt in b:
+            return b
+    return None
+
+
+def qualname_of(fn):
+    from ..source import qualname
+    return qualname(fn)
 
 
 def d_consumers(ctx):
